@@ -27,7 +27,7 @@ def plan(tier):
     for n in range(1, bounds(tier)['nodes'] + 1):
         sh = 1 if n <= 4 else NSHARD
         units += [(n, k, sh) for k in range(sh)]
-    units += [('wide', k, 8) for k in range(8)]
+    units += [('wide', k, 16) for k in range(16)]
     return units
 
 
@@ -64,6 +64,22 @@ def wide_bodies():
                             t = ('quant', q, 'i', d, bd)
                             out.append(t)
                             out.append(('un', 'not', t))
+    # directly nested quantifiers (all four kind pairs) whose inner domain may be built from the outer variable, over a
+    # conjunction / disjunction of two members of which exactly one or both mention @A: the outer variable may occur
+    # in the inner domain only, and a member that is hoisted out of a quantifier must not take a bound variable along
+    W = ('var', 'j')
+    natoms = [('bin', '>', W, num(0)), ('bin', '>', W, V), ('bin', '>', alias_field('A', 'x'), W), ('bin', '>', alias_field('A', 'x'), V), boolfrag.AP, boolfrag.P, ('bin', '>', W, tf('x'))]
+    inner_doms = [('range', num(0), V, False, False), ('set', (V, num(1))), tf('xs'), ('set', (num(0), num(1)))]
+    for m1, m2 in permutations(range(len(natoms)), 2):
+        if not any(m in (2, 3, 4) for m in (m1, m2)) or not any(m in (0, 1, 2, 6) for m in (m1, m2)):
+            continue  # mentions @A and uses the inner variable
+        for di, d2 in enumerate(inner_doms):
+            if di >= 2 and not any(m in (1, 3) for m in (m1, m2)):
+                continue  # the outer variable must be used: in the inner domain or in the body
+            for op in ('and', 'or'):
+                for q1 in ('forall', 'exists'):
+                    for q2 in ('forall', 'exists'):
+                        out.append(('quant', q1, 'i', doms[(m1 + di) % 2], ('quant', q2, 'j', d2, ('bin', op, natoms[m1], natoms[m2]))))
     return out
 
 
@@ -318,7 +334,7 @@ def replay(w):
 def describe(tier):
     b = bounds(tier)
     return {
-        'rule': f"every boolean term over atoms p q r (x > 0) (y = 1) True False @A.p (@A.x > 0) @B.p with not/and/or/implies/iff and forall/exists @i over xs, {{0,1}}, [0 to 1], @A.xs (bodies may use (@i > 0), (@A.x > @i)) with <= {b['nodes']} nodes; every term with <= 4 nodes that mentions @A also under chains of 2, 3 and 4 negations; for terms with <= 4 nodes the copies made by replace_var_with_this(A) / replace_this_with_var(C) of the already refactored object are refactored too (histories of depth 2); each refactored for aliases A, B and the absent C, as expression and as predicate; x every valuation (truth tables, numbers -1 0 1, arrays [] [0] [0,1]). Terms with <= 4 nodes that mention an alias are also refactored under 4 renamings that make alias and bound-variable names suffixes / prefixes of one another (AB / B, BA / B, xB and iA, i_A and A_i), for each of the related names. Plus quantifiers (plain and negated, both kinds, 2 domains) over plain and negated and / or / implies of 2-3 members that mention @A and the bound variable. nontrivial = terms mentioning @A.",
+        'rule': f"every boolean term over atoms p q r (x > 0) (y = 1) True False @A.p (@A.x > 0) @B.p with not/and/or/implies/iff and forall/exists @i over xs, {{0,1}}, [0 to 1], @A.xs (bodies may use (@i > 0), (@A.x > @i)) with <= {b['nodes']} nodes; every term with <= 4 nodes that mentions @A also under chains of 2, 3 and 4 negations; for terms with <= 4 nodes the copies made by replace_var_with_this(A) / replace_this_with_var(C) of the already refactored object are refactored too (histories of depth 2); each refactored for aliases A, B and the absent C, as expression and as predicate; x every valuation (truth tables, numbers -1 0 1, arrays [] [0] [0,1]). Terms with <= 4 nodes that mention an alias are also refactored under 4 renamings that make alias and bound-variable names suffixes / prefixes of one another (AB / B, BA / B, xB and iA, i_A and A_i), for each of the related names. Plus quantifiers (plain and negated, both kinds, 2 domains) over plain and negated and / or / implies of 2-3 members that mention @A and the bound variable. Plus directly nested quantifiers (4 kind pairs) whose inner domain is [0 to @i], {{@i, 1}}, xs or {{0, 1}} over and / or of two of 7 members (one or both mention @A). nontrivial = terms mentioning @A.",
         'bounds': b,
         'exhaustive': True,
         'assumptions': ['reference evaluator; strict connectives'],
